@@ -1,0 +1,7 @@
+//go:build !verif
+
+package tokenizers
+
+import "github.com/pip-services3-gox/pip-services3-expressions-gox/io"
+
+func verifLoopHook(scanner io.IScanner, iteration *int) {}
